@@ -37,7 +37,7 @@ Record vtrack := mkVtrack { vt_staking : list sval; vt_orch : list (bytes * byte
 
 Definition find_rec (l : list vrec) (n : N) (h : bytes) : option vrec := find (rec_is n h) l.
 
-Definition mon_votes_step (prop : Z) (step : nat) (o : vop) (prev cur : vobs) (t : vtrack) : list val :=
+Definition mon_votes_step (prop : Z) (step : nat) (o : vop) (prev cur : vobs) (t : vtrack) (voted : list (bytes * N)) : list val :=
   let newly := filter (fun r => vr_accepted r && negb (match find_rec (vo_recs prev) (vr_nonce r) (vr_hash r) with
                                                        | Some p => vr_accepted p | None => false end)) (vo_recs cur) in
   match o with
@@ -65,6 +65,12 @@ Definition mon_votes_step (prop : Z) (step : nat) (o : vop) (prev cur : vobs) (t
                        | Some l => if N.eqb nonce (l + 1) then [] else [vviol k_c03_contig step [VB v; vNat l; vNat nonce]]
                        | None => []
                        end
+                       (* the same against the monitor's own record of what this validator voted last (the stored position
+                          must not be trusted: whatever rewrites it would also hide the repeated vote) *)
+                       ++ match aget v voted with
+                          | Some l => if N.eqb nonce (l + 1) then [] else [vviol k_c03_contig step [VB v; vNat l; vNat nonce; VI 1]]
+                          | None => []
+                          end
                        ++ (if N.eqb (agetd 0%N v (vo_lasts cur)) nonce then [] else [vviol k_c03_contig step [VB v; vNat nonce]])
            | None => []
            end)
@@ -109,16 +115,25 @@ Definition vtrack_step (o : vop) (t : vtrack) : vtrack :=
   | VTally => t
   end.
 
-Fixpoint vmon_fold (prop : Z) (step : nat) (ops : list val) (outs : list val) (prev : vobs) (t : vtrack) : list val :=
+Fixpoint vmon_fold (prop : Z) (step : nat) (ops : list val) (outs : list val) (prev : vobs) (t : vtrack) (voted : list (bytes * N)) : list val :=
   match ops, outs with
   | ov :: ops', v :: outs' =>
       let o := dec_vop ov in
       let cur := dec_vobs v in
       let t1 := vtrack_step o t in
-      mon_votes_step prop step o prev cur (match o with VSetStaking _ _ => t1 | _ => t end)
-      ++ vmon_fold prop (S step) ops' outs' cur t1
+      (* who voted: the vote the record gained *)
+      let voted' := match o with
+                    | VVote _ nonce hash _ =>
+                        if vo_code cur =? 0 then
+                          match find_rec (vo_recs cur) nonce hash with
+                          | Some r => match rev (vr_votes r) with w :: _ => aset w nonce voted | [] => voted end
+                          | None => voted end
+                        else voted
+                    | _ => voted end in
+      mon_votes_step prop step o prev cur (match o with VSetStaking _ _ => t1 | _ => t end) voted
+      ++ vmon_fold prop (S step) ops' outs' cur t1 voted'
   | _, _ => []
   end.
 
-Definition mon_C02 (c impl : val) : val := VL (vmon_fold 2 0 (vL c) (vL impl) vobs0 (mkVtrack [] [] [])).
-Definition mon_C03 (c impl : val) : val := VL (vmon_fold 3 0 (vL c) (vL impl) vobs0 (mkVtrack [] [] [])).
+Definition mon_C02 (c impl : val) : val := VL (vmon_fold 2 0 (vL c) (vL impl) vobs0 (mkVtrack [] [] []) []).
+Definition mon_C03 (c impl : val) : val := VL (vmon_fold 3 0 (vL c) (vL impl) vobs0 (mkVtrack [] [] []) []).
